@@ -76,6 +76,17 @@ func OracleC01(run *common.Run, id string, res *Result) int {
 		return fails
 	}
 	reach := g.Reach(res.Root2)
+	if c.Mode == "x" || c.Mode == "X" {
+		// ExtendedCopy: the graphs of all roots above the node (ancestors without predecessors)
+		reach = map[int]bool{}
+		for _, n := range g.Nodes {
+			if !n.Foreign() && len(g.Preds(n.ID)) == 0 && g.Reach(n.ID)[res.Root2] {
+				for k := range g.Reach(n.ID) {
+					reach[k] = true
+				}
+			}
+		}
+	}
 	var missing, bad []int
 	for i := range reach {
 		if !res.Present[i] {
@@ -114,7 +125,7 @@ func OracleC01(run *common.Run, id string, res *Result) int {
 	if len(bad) > 0 {
 		fail("bytes-differ", fmt.Sprintf("nodes %v are present with different bytes", bad))
 	}
-	if c.Mode != "g" {
+	if c.Mode != "g" && c.Mode != "x" {
 		want := g.Nodes[res.Root2].Desc
 		got := res.Returned
 		if got.MediaType != want.MediaType || got.Digest != want.Digest || got.Size != want.Size {
@@ -123,7 +134,7 @@ func OracleC01(run *common.Run, id string, res *Result) int {
 		if res.TagNode != res.Root2 {
 			sig := "tag-wrong"
 			// known finding: a non-manifest root that was mounted (OnMounted is not wrapped by prepareCopy)
-			if c.Mount && !g.Nodes[res.Root2].IsManifest() && res.TagNode == -1 {
+			if c.Mounting() && !g.Nodes[res.Root2].IsManifest() && res.TagNode == -1 {
 				for _, t := range res.Toks {
 					if t == fmt.Sprintf("ME.%d.m", res.Root2) {
 						sig = "mounted-root-untagged"
@@ -199,14 +210,20 @@ func OracleC04(run *common.Run, id string, res *Result) int {
 		case "SB", "PB":
 			add(t.op, t.n, i)
 		case "PE":
+			add("PEany", t.n, i)
 			if t.b == "k" {
 				add("PEk", t.n, i)
+			}
+		case "XE":
+			if t.a == "1" {
+				add("XE1", t.n, i)
 			}
 		case "MB":
 			add("MB", t.n, i)
 		case "ME":
 			if t.a == "c" {
 				add("PEk", t.n, i) // uploaded inside Mount: a transfer like a push
+				add("PEany", t.n, i)
 			}
 			if t.a == "m" {
 				add("MEm", t.n, i)
@@ -235,10 +252,11 @@ func OracleC04(run *common.Run, id string, res *Result) int {
 			if len(pb) == 0 {
 				pb = pk // uploaded inside Mount: PreCopy is invoked by getContent, after Mount was called
 			}
-			if len(pre) != 1 || len(post) != 1 {
-				fail("callback-count", fmt.Sprintf("transferred node %d: %d PreCopy, %d PostCopy", n, len(pre), len(post)))
-			} else if !(pre[0] < pb[0] && pk[0] < post[0]) {
-				fail("callback-order", fmt.Sprintf("node %d: PreCopy@%d Push@%d..%d PostCopy@%d", n, pre[0], pb[0], pk[0], post[0]))
+			wantPre, wantPost := b2i(c.CbIsSet("pre")), b2i(c.CbIsSet("post"))
+			if len(pre) != wantPre || len(post) != wantPost {
+				fail("callback-count", fmt.Sprintf("transferred node %d: %d PreCopy (want %d), %d PostCopy (want %d)", n, len(pre), wantPre, len(post), wantPost))
+			} else if (wantPre == 1 && !(pre[0] < pb[0])) || (wantPost == 1 && !(pk[0] < post[0])) {
+				fail("callback-order", fmt.Sprintf("node %d: PreCopy@%v Push@%d..%d PostCopy@%v", n, pre, pb[0], pk[0], post))
 			}
 			if len(skip) != 0 {
 				fail("callback-count", fmt.Sprintf("node %d transferred and reported skipped", n))
@@ -246,7 +264,7 @@ func OracleC04(run *common.Run, id string, res *Result) int {
 		}
 		if mm := at("MEm", n); len(mm) > 0 {
 			mo := at("CBmounted", n)
-			if len(mm) > 1 || len(mo) > 1 || (res.Err == nil && len(mo) != 1) || len(pre) != 0 || len(post) != 0 {
+			if len(mm) > 1 || len(mo) > 1 || (res.Err == nil && len(mo) != b2i(c.CbIsSet("mounted"))) || len(pre) != 0 || len(post) != 0 {
 				fail("callback-count", fmt.Sprintf("mounted node %d: %d mounts, %d OnMounted, %d PreCopy, %d PostCopy", n, len(mm), len(mo), len(pre), len(post)))
 			} else if len(mo) == 1 && mo[0] < mm[0] {
 				fail("callback-order", fmt.Sprintf("node %d: OnMounted before Mount returned", n))
@@ -260,6 +278,12 @@ func OracleC04(run *common.Run, id string, res *Result) int {
 				ok := false
 				for _, k := range []string{"CBpost", "CBskip", "CBmounted"} {
 					if p := at(k, s); len(p) > 0 && p[0] < post[0] {
+						ok = true
+					}
+				}
+				// a nil callback cannot notify: the store event that precedes it stands in
+				for k, cbk := range map[string]string{"PEany": "post", "XE1": "skip", "MEm": "mounted"} {
+					if p := at(k, s); !c.CbIsSet(cbk) && len(p) > 0 && p[0] < post[0] {
 						ok = true
 					}
 				}
@@ -277,7 +301,7 @@ func OracleC04(run *common.Run, id string, res *Result) int {
 
 // Budget of one harness run.
 type Budget struct {
-	Main, Contention, Twin, CbFail, Mount, Remote int
+	Main, Contention, Twin, CbFail, Mount, Remote, RootPresent, Extended int
 	Sched, SchedReps                      int // graphs run under testing/synctest with the PRNG-controlled scheduler, extra schedules per graph
 	Small                                 bool // small-scope enumeration (graphs <= 3 nodes, sampled 4-node graphs) x roots x closed subsets
 	Reps                           int // extra schedules (latency seeds) per generated case
@@ -327,6 +351,24 @@ func Drive(run *common.Run, prop string, b Budget) {
 		if c.Sched {
 			run.Count("controlled-schedule(synctest)")
 		}
+		switch c.cbBits() {
+		case "11111":
+			run.Count("callbacks=all-set")
+		case "00000":
+			run.Count("callbacks=all-nil(default options)")
+		default:
+			run.Count("callbacks=mixed")
+		}
+		if c.FindSucc {
+			run.Count("FindSuccessors set")
+		}
+		if (c.Mode == "t" || c.Mode == "r") && res.Root2 >= 0 && inSet(c.D0, res.Root2) {
+			hook := "set"
+			if !c.CbIsSet("skip") {
+				hook = "nil"
+			}
+			run.Count("matrix root-present/" + map[string]string{"t": "Tagger", "r": "ReferencePusher"}[c.Mode] + "/OnCopySkipped-" + hook)
+		}
 		if c.Platform != "" {
 			run.Count("platform")
 		}
@@ -347,6 +389,16 @@ func Drive(run *common.Run, prop string, b Budget) {
 		if res.Hang {
 			oracle(run, id, res)
 			return
+		}
+		if c.Mode == "x" || c.Mode == "X" {
+			run.Count("extended-copy")
+			nroots := 0
+			for _, n := range g.Nodes {
+				if !n.Foreign() && len(g.Preds(n.ID)) == 0 && g.Reach(n.ID)[res.Root2] {
+					nroots++
+				}
+			}
+			run.Count(fmt.Sprintf("extended-copy roots=%d", min(nroots, 4)))
 		}
 		run.Case(id, ModelInput(res), implLine(res))
 		run.TracesAgainstImpl++
@@ -411,6 +463,8 @@ func Drive(run *common.Run, prop string, b Budget) {
 	stream("main", b.Main)
 	stream("contention", b.Contention)
 	stream("cbfail", b.CbFail)
+	stream("rootpresent", b.RootPresent)
+	stream("extended", b.Extended)
 	stream("mount", b.Mount)
 	stream("remote", b.Remote)
 	stream("twin", b.Twin)
@@ -439,7 +493,7 @@ func Drive(run *common.Run, prop string, b Budget) {
 
 func implLine(res *Result) string {
 	if res.Root2 < 0 && res.Err != nil && len(res.Toks) == 1 {
-		return "PROLOGUE-ERR"
+		return "PROLOGUE-ERR" + implSel(res)
 	}
 	return ImplObs(res)
 }
